@@ -419,6 +419,7 @@ func (vc *VC) loopInvs(l *loopInfo) []*Clause {
 			out = append(out, c)
 		}
 	}
+	out = append(out, vc.autoInvs(l)...)
 	return out
 }
 
@@ -515,6 +516,7 @@ func (vc *VC) enterLoop(b *ssa.BasicBlock, l *loopInfo) {
 			phiVals[vc.eng.rn(vc.selfKey(), phi.Comment)] = v
 		}
 	}
+	vc.bindHeaderDebug(b, phiVals, func(p *ssa.Phi) SVal { return vc.vals[p] })
 	env := vc.loopEnv(l, phiVals, vc.curMem)
 	for _, c := range invs {
 		vc.fact(vc.R[b], vc.evalBool(c.E, env))
@@ -556,6 +558,7 @@ func (vc *VC) checkInvFrom(l *loopInfo, from, header *ssa.BasicBlock, mem *Mem, 
 			phiVals[vc.eng.rn(vc.selfKey(), phi.Comment)] = vc.coerce(vc.val(phi.Edges[idx]), phi.Type())
 		}
 	}
+	vc.bindHeaderDebug(header, phiVals, func(p *ssa.Phi) SVal { return vc.coerce(vc.val(p.Edges[idx]), p.Type()) })
 	env := vc.loopEnv(l, phiVals, mem)
 	if n, ok := vc.nallocOut[from]; ok && vc.tracksAlloc() {
 		env.vars["nalloc"] = mkInt(n)
